@@ -127,7 +127,8 @@ Inductive hop :=
 | HShow (name : str)
 | HDelete (name : str)
 | HCopy (src dst : str)
-| HCreate (name from : str) (d : N).
+| HCreate (name from : str) (d : N)
+| HList.
 
 (** result: (ok, value) - value = identity of the addressed model for show *)
 Definition h_step (st : hstate) (op : hop) : hstate * (bool * N) :=
@@ -165,6 +166,7 @@ Definition h_step (st : hstate) (op : hop) : hstate * (bool * N) :=
           else (st, (false, 0))
       | None => (st, (false, 0))
       end
+  | HList => (st, (true, N.of_nat (length st)))            (* /api/tags: every stored model once *)
   end.
 
 Fixpoint h_run (st : hstate) (ops : list hop) : hstate :=
